@@ -360,13 +360,17 @@ def replay(case):
         resource.setrlimit(resource.RLIMIT_AS, (6 << 30, 6 << 30))
 
         def _hang(*_):
-            raise TimeoutError("construction did not finish in 60 s")
+            raise TimeoutError("construction did not finish in 10 s")
 
         signal.signal(signal.SIGALRM, _hang)
-        signal.alarm(60)
+        signal.alarm(10)   # building one small expression natively takes milliseconds; 10 s is a hang
     try:
-        r = ClaripyInterp(consts).ev(tree)
-        r2 = ClaripyInterp(consts).ev(tree)
+        try:
+            r = ClaripyInterp(consts).ev(tree)
+            r2 = ClaripyInterp(consts).ev(tree)
+        finally:
+            if prop == "C04":
+                signal.alarm(0)
     except Exception as e:  # noqa: BLE001
         s = z3.Solver()
         ok, why = _allowed_exception_native(tree, e, zi)
